@@ -2,6 +2,7 @@
 LEVELS = {
     'C01': 'other',
     'C03': 'other',
+    'C12': 'other',
     'C22': 'other',
     'C25': 'proof',
     'C26': 'proof',
@@ -9,6 +10,7 @@ LEVELS = {
     'C28': 'proof',
 }
 EXPLAIN = {
+    'C12': 'BOUNDED stand-in with fully symbolic counters: each producer/consumer function of the real WeakRingBuffer (typed and <void>) is checked as one side of the SPSC pair while the environment lets the other side progress before every atomic access: success exactly when space/elements suffice (against a counter value read during the call), elements stored/returned in order at the right positions, no unread cell or byte ever overwritten, records contiguous with exact size headers, tail markers skipped exactly once.',
     'C01': 'BOUNDED stand-in (not a proof): ghost-state obligations on the real scan code (both strategies, the odd-address fallback, retire, detach) over harness-built worlds of a few thread records, hazard slots and retired pointers, exhaustive inside the bound; a witness hazard slot holds the protected pointer for the whole pass while every other slot returns arbitrary values (all interleavings of other threads with the pass). The disposer stub asserts it is never called on the protected pointer.',
     'C03': 'BOUNDED stand-in (not a proof): a tracked retired object is followed through scan, retire, help_scan, detach and the destructor of the real code: disposed at most once, exactly once when unprotected / at destruction, never invented, conserved by adoption of abandoned records. HP only; DHP is covered by unit dhp_scan when present.',
     'C22': 'Rely/guarantee obligations with ghost ownership on the real lock code: every write of the calling thread is checked against the guarantee (takes only a free lock, releases only its own, reference counts match), the environment step applies any interference the rely allows before every atomic access; postconditions and the lock invariant are asserted after each call. Spin loops are closed by a fairness budget (bounded), loop-free functions are unbounded.',
